@@ -552,7 +552,12 @@ Ltac ev1 :=
     | progress unfold lift_m, wset, maybe_parse, g_unpack2, passes
     | rewrite pf_band1 | rewrite pf_band2 | rewrite pf_band4
     | rewrite truthy_land | rewrite truth_gbool | rewrite attr_parsing
-    | rewrite g_in_preamble | rewrite hdr_ubx | rewrite g_index1 | rewrite g_band_int | rewrite mask_eq | rewrite beq1
+    | match goal with |- context [g_in (V (PBytes [?x])) [V (PBytes [?a]); V (PBytes [?b]); V (PBytes [?d])]] =>
+        (* the three preamble bytes, in whatever order the source lists them *)
+        replace (g_in (V (PBytes [x])) [V (PBytes [a]); V (PBytes [b]); V (PBytes [d])]) with (is_preamble x)
+          by (unfold is_preamble; cbn [g_in existsb g_eq pv_eq beq];
+              destruct (x =? 181)%N, (x =? 36)%N, (x =? 211)%N; reflexivity) end
+    | rewrite hdr_ubx | rewrite g_index1 | rewrite g_band_int | rewrite mask_eq | rewrite beq1
     | match goal with |- context [g_in (V (PBytes [?a; ?b])) ?l] =>
         change (g_in (V (PBytes [a; b])) l) with (g_in (V (PBytes [a; b])) (map (fun z => V (PBytes [36%N; z])) nmea_hdr2));
         rewrite hdr_nmea end
